@@ -114,6 +114,8 @@ class Externals:
             return BUILTINS['functools.partial']
         if full == 'engineio' and name in ('packet', 'json', 'exceptions'):
             return ModuleV('engineio.' + name)
+        if full.startswith('engineio.'):
+            return Recorder(full + '.' + name)
         if full == 'threading' and name == 'Event':
             return ClassV('threading.Event')
         if full.startswith('socketio.'):
@@ -128,6 +130,8 @@ class Externals:
         return ModuleV(full + '.' + name)
 
     def obj_attr(self, eng, ctx, base, attr):
+        if attr == '__class__':
+            return Recorder('class:' + base.name)
         cls = eng.schema.classes.get(base.name)
         tag = cls[1] if cls else None
         impl = self.obj_methods.get((tag, attr))
@@ -146,8 +150,13 @@ class Externals:
 
     # ---------------------------------------------------------------- attributes of values
     def value_attr(self, eng, ctx, base, attr):
+        if isinstance(base, Recorder):
+            return iter([(ctx, Recorder(base.path + '.' + attr))])
         if isinstance(base, ModuleV):
-            return self._module_attr(eng, ctx, base, attr)
+            r = self._module_attr(eng, ctx, base, attr)
+            if r is None and base.name.split('.')[0] in ('time', 'datetime', 'os', 'socket', 'engineio', 'urllib', 'functools', 'uuid'):
+                return iter([(ctx, Recorder(base.name + '.' + attr))])
+            return r
         if isinstance(base, ClassV):
             key = ('class', base.name, attr)
             if key in self.module_attrs:
@@ -1012,6 +1021,16 @@ def _set(eng, ctx, args, kwargs):
         yield ctx, SetV(arr)
         return
     raise Unsupported('set(%r)' % (x,))
+
+
+class Recorder(Value):
+    """An object outside the verified code whose every use is recorded (ctx.notes): attribute chains name a path, a call
+    records ('api', path, bound/positional args, kwargs, result), an attribute assignment records ('apiset', path, value)."""
+    def __init__(self, path):
+        self.path = path
+
+    def __repr__(self):
+        return 'Recorder(%s)' % self.path
 
 
 class SetV(Value):
